@@ -245,12 +245,15 @@ class Config(object):
 LOG_METHODS = {"debug", "info", "warning", "error", "exception", "critical"}
 
 
+CLOSURES = {}
+
+
 class Interp(object):
     def __init__(self, prog, types, config=None):
         self.prog = prog
         self.types = types
         self.cfg = config or Config()
-        self.closures = {}
+        self.closures = CLOSURES  # shared: closure values may travel between runs (initial heaps)
         self._site = 0
         self.npaths = 0
         self.truncated = False
